@@ -26,11 +26,15 @@ pub enum Act {
     NArrive(usize),
     NInsert(usize),
     NClose(usize),
+    /// the stream starts yielding cooperatively (Pending + self-wake) until the
+    /// receiver's current/next poll returns
+    Yield(usize),
 }
 
 impl Act {
     pub fn code(&self) -> u64 {
         match self {
+            Act::Yield(i) => 0x90 + *i as u64,
             Act::Arrive(i) => 0x10 + *i as u64,
             Act::Insert(i) => 0x20 + *i as u64,
             Act::Close(i) => 0x30 + *i as u64,
@@ -51,6 +55,7 @@ impl Act {
             Act::NArrive(i) => format!("mid-poll:arrive({i})"),
             Act::NInsert(i) => format!("mid-poll:insert({i})"),
             Act::NClose(i) => format!("mid-poll:close({i})"),
+            Act::Yield(i) => format!("yield({i})"),
         }
     }
     pub fn from_name(s: &str) -> Option<Act> {
@@ -72,6 +77,8 @@ impl Act {
             Act::Close(idx(s)?)
         } else if s.starts_with("remove") {
             Act::Remove(idx(s)?)
+        } else if s.starts_with("yield") {
+            Act::Yield(idx(s)?)
         } else {
             return None;
         })
@@ -93,6 +100,10 @@ struct St {
     /// global delivery count when this stream last became "ready and known to the queue"
     ready_since: Option<u64>,
     new_since_last_poll: bool,
+    /// cooperative yielding (what tokio's coop budget does to a transport): every
+    /// poll returns Pending after waking its own waker, until the receiver's
+    /// poll returns to the executor
+    yielding: bool,
 }
 
 struct World {
@@ -102,6 +113,9 @@ struct World {
     in_stream_poll: bool,
     deliveries: u64,
     counters: Counters,
+    /// stream polls inside the current receiver poll
+    polls_this_recv_poll: u64,
+    spin_detected: bool,
 }
 
 #[derive(Default, Clone, Debug)]
@@ -120,6 +134,8 @@ pub struct Counters {
     pub wake_consumed_then_second_arrival: u64,
     pub max_overtaken: u64,
     pub max_overtaken_n: u64,
+    pub yield_polls: u64,
+    pub yielding_streams: u64,
 }
 
 pub struct ScriptStream {
@@ -220,6 +236,19 @@ impl Stream for ScriptStream {
         }
         let mut g = this.world.lock().unwrap();
         g.in_stream_poll = false;
+        g.polls_this_recv_poll += 1;
+        if g.st[this.idx].yielding {
+            if g.polls_this_recv_poll > 5000 {
+                // the queue keeps re-polling inside one poll_next: escape and report
+                g.spin_detected = true;
+                g.st[this.idx].yielding = false;
+            } else {
+                g.counters.yield_polls += 1;
+                drop(g);
+                cx.waker().wake_by_ref();
+                return Poll::Pending;
+            }
+        }
         let s = &mut g.st[this.idx];
         s.polls += 1;
         let stale = !s.new_since_last_poll;
@@ -301,6 +330,7 @@ impl Engine {
                     forfeited: false,
                     ready_since: None,
                     new_since_last_poll: true,
+                    yielding: false,
                 })
                 .collect(),
             nested: Vec::new(),
@@ -308,6 +338,8 @@ impl Engine {
             in_stream_poll: false,
             deliveries: 0,
             counters: Counters::default(),
+            polls_this_recv_poll: 0,
+            spin_detected: false,
         }));
         Engine {
             world,
@@ -343,7 +375,25 @@ impl Engine {
         let waker = Waker::from(self.flag.clone());
         let mut cx = Context::from_waker(&waker);
         self.polled_once = true;
-        match self.probe.poll_next(&mut cx) {
+        self.world.lock().unwrap().polls_this_recv_poll = 0;
+        let polled = self.probe.poll_next(&mut cx);
+        {
+            // the receiver's poll returned to the executor: budgets are reset
+            let mut g = self.world.lock().unwrap();
+            let spin = g.spin_detected;
+            g.spin_detected = false;
+            for s in g.st.iter_mut() {
+                s.yielding = false;
+            }
+            drop(g);
+            if spin {
+                self.finding(
+                    "C06/fq/spins-on-yielding-stream",
+                    "a stream returned Pending after waking itself (cooperative yielding); the queue re-polled it more than 5000 times inside a single poll_next instead of returning to the executor".into(),
+                );
+            }
+        }
+        match polled {
             Poll::Ready(Some((k, item))) => {
                 self.parked = false;
                 let mut g = self.world.lock().unwrap();
@@ -474,6 +524,21 @@ impl Engine {
             Act::NArrive(_) | Act::NInsert(_) | Act::NClose(_) => {
                 self.world.lock().unwrap().nested.push(a);
             }
+            Act::Yield(i) => {
+                let w = {
+                    let mut g = self.world.lock().unwrap();
+                    if !g.st[i].inserted || g.st[i].removed || g.st[i].closed {
+                        return;
+                    }
+                    g.st[i].yielding = true;
+                    g.counters.yielding_streams += 1;
+                    g.st[i].waker.take()
+                };
+                // it has something to say (that is why it will be polled)
+                if let Some(w) = w {
+                    w.wake();
+                }
+            }
         }
     }
 
@@ -580,7 +645,7 @@ impl Gen {
             Act::Insert(i) | Act::NInsert(i) => self.inserted[i] = true,
             Act::Close(i) | Act::NClose(i) => self.closed[i] = true,
             Act::Remove(i) => self.removed[i] = true,
-            Act::Poll => {}
+            Act::Poll | Act::Yield(_) => {}
         }
     }
 }
@@ -637,7 +702,12 @@ pub fn random_walk(k: usize, len: usize, seed: u64, saturate: bool) -> (Vec<Act>
         }
     } else {
         for _ in 0..len {
-            let en = g.enabled(true, true);
+            let mut en = g.enabled(true, true);
+            for i in 0..k {
+                if g.inserted[i] && !g.removed[i] && !g.closed[i] {
+                    en.push(Act::Yield(i));
+                }
+            }
             // polls are frequent, structural changes rare
             let a = loop {
                 let a = *r.pick(&en);
@@ -647,6 +717,7 @@ pub fn random_walk(k: usize, len: usize, seed: u64, saturate: bool) -> (Vec<Act>
                     Act::Insert(_) | Act::NInsert(_) => r.chance(1, 2),
                     Act::Close(_) | Act::NClose(_) => r.chance(1, 12),
                     Act::Remove(_) => r.chance(1, 12),
+                    Act::Yield(_) => r.chance(1, 4),
                 };
                 if keep {
                     break a;
